@@ -10,6 +10,10 @@
 // basic scheme whose htpasswd file is replaced / removed while requests are
 // served, with requests sent from inside the re-read through the standard
 // logger (class http/auth-reload, case type CReload, Model/BasicReload.v).
+// Also: histories against a SET of basic schemes (two or three schemes with htpasswd
+// files of their own and equal or different realms behind ONE HTTPProxy, one route per
+// scheme): credentials accepted on the route of one scheme are presented on the routes
+// of the others (class http/scheme-set, case type CSchemes, Model/BasicSchemes.v).
 package main
 
 import (
@@ -55,7 +59,7 @@ import (
 )
 
 const preamble = `From Coq Require Import List NArith String.
-From Fabio Require Import Lib.Outcome Lib.Bytes Lib.Pack Model.Access Model.BasicReload Check.C12.
+From Fabio Require Import Lib.Outcome Lib.Bytes Lib.Pack Model.Access Model.BasicReload Model.BasicSchemes Check.C12.
 Import ListNotations.
 Local Open Scope N_scope.
 `
@@ -2145,6 +2149,385 @@ func main() {
 			}
 		}
 		log.SetOutput(io.Discard)
+	}
+
+	// ---------------- 9. a SET of basic schemes behind ONE HTTPProxy ----------------
+	// proxy.auth configures several schemes; every scheme has an htpasswd file of its own and a realm
+	// that may well be the same for all of them.  One HTTPProxy, AuthSchemes from ONE call of the real
+	// auth.LoadAuthSchemes, a table built by the real route.NewTable with one route per scheme (some
+	// of them redirect routes), a route naming an unknown scheme and a route without auth option.
+	// Users live in one scheme only, in two schemes with the same password, or in two schemes with
+	// different passwords.  A history: a pair is presented on the other schemes' routes BEFORE anyone
+	// logged in (cold), on its home route (accepted), then on every other route, on the home route
+	// again; wrong passwords likewise; requests without credentials (the challenge names the realm of
+	// the route's own scheme).  In one history out of three the schemes refresh and the operator
+	// replaces the file of one of them in the middle (a user removed, a password changed, a user of
+	// ANOTHER scheme added with that scheme's password), the harness waits for the new file's canary
+	// user and goes on.  One CSchemes case per request carrying everything that happened before it;
+	// the model replays the history on the machine of the whole set, the reference reads only the
+	// route's own scheme's file.  The choices come from a source of their own.
+	{
+		r9 := rand.New(rand.NewSource(run.Seed*15485863 + 9))
+		pw9 := func(n int) string {
+			const cs = "abcdefghijklmnopqrstuvwxyzABCDEFGHIJKLMNOPQRSTUVWXYZ0123456789-_:!"
+			b := make([]byte, n)
+			for i := range b {
+				b[i] = cs[r9.Intn(len(cs))]
+			}
+			return string(b)
+		}
+		mkUser := func(name, pw string) hLine {
+			l := hLine{kind: 0, user: name, pw: pw}
+			switch r9.Intn(3) {
+			case 0:
+				l.text = shaLine(name, pw)
+			case 1:
+				l.text = bcryptLine(name, pw)
+			default:
+				l.text = name + ":" + pw // AcceptPlain
+			}
+			return l
+		}
+		coqCreds := func(header string) (string, string) {
+			req := &http.Request{Header: http.Header{}}
+			if header != "" {
+				req.Header.Set("Authorization", header)
+			}
+			u, pw, ok := req.BasicAuth()
+			return fmt.Sprintf("{| c_ok := %s; c_user := %s; c_pw := %s |}", vh.Bool(ok), vh.HxS(u), vh.HxS(pw)), fmt.Sprintf("%q/%q ok=%v", u, pw, ok)
+		}
+		type setScheme struct {
+			name, realm, file string
+			init              []hLine // version 0
+			cur               []hLine // user lines of the content in force (canary excluded)
+			canary            hLine
+			version           int
+		}
+		type setRoute struct {
+			path, auth string
+			redirect   int
+		}
+		for h := 0; h < run.Scale(12, 90); h++ {
+			base := time.Now().Truncate(time.Second).Add(-time.Hour)
+			pool := []string{"staff", "vault", "ops", "mybasic", "other", "Staff"}
+			r9.Shuffle(len(pool), func(i, j int) { pool[i], pool[j] = pool[j], pool[i] })
+			nS := 2 + r9.Intn(2)
+			refresh := h%3 == 1
+			scs := make([]*setScheme, nS)
+			common := []string{"Restricted", "fabio", "", "a b", "staff", "Basic"}[r9.Intn(6)]
+			mode := r9.Intn(5)
+			for i := range scs {
+				sc := &setScheme{name: pool[i], file: filepath.Join(dir, fmt.Sprintf("set%d_%d.htpasswd", h, i))}
+				switch {
+				case mode <= 2, mode == 3 && i < 2:
+					sc.realm = common // the same explicit realm
+				default:
+					sc.realm = sc.name // what the configuration defaults to
+				}
+				scs[i] = sc
+			}
+			// the users
+			people := []string{"alice", "bob", "carol", "dave", "erin", "root", "al", "x"}
+			r9.Shuffle(len(people), func(i, j int) { people[i], people[j] = people[j], people[i] })
+			nP := 3 + r9.Intn(3)
+			users := make([][]hLine, nS)
+			for k := 0; k < nP; k++ {
+				home := k % nS
+				pw := pw9(1 + r9.Intn(9))
+				users[home] = append(users[home], mkUser(people[k], pw))
+				other := (home + 1 + r9.Intn(nS-1)) % nS
+				switch r9.Intn(4) {
+				case 0: // the same pair in a second scheme
+					users[other] = append(users[other], mkUser(people[k], pw))
+				case 1: // the same user with another password in a second scheme
+					users[other] = append(users[other], mkUser(people[k], pw+pw9(1+r9.Intn(2))))
+				}
+			}
+			install := func(sc *setScheme, f []hLine) {
+				tmp := sc.file + ".new"
+				if err := os.WriteFile(tmp, hFileText(f), 0o600); err != nil {
+					panic(err)
+				}
+				mt := base.Add(time.Duration(2*sc.version) * time.Second)
+				if err := os.Chtimes(tmp, mt, mt); err != nil {
+					panic(err)
+				}
+				if err := os.Rename(tmp, sc.file); err != nil {
+					panic(err)
+				}
+			}
+			cfgs := map[string]config.AuthScheme{}
+			var cfgItems []string
+			for i, sc := range scs {
+				sc.cur = users[i]
+				sc.canary = mkUser(fmt.Sprintf("canary%ds%dv0", h, i), pw9(6))
+				sc.init = append(append([]hLine(nil), sc.cur...), sc.canary)
+				r9.Shuffle(len(sc.init), func(a, b int) { sc.init[a], sc.init[b] = sc.init[b], sc.init[a] })
+				if r9.Intn(3) == 0 {
+					at := r9.Intn(len(sc.init) + 1)
+					sc.init = append(sc.init[:at], append([]hLine{{kind: 2, text: ""}}, sc.init[at:]...)...)
+				}
+				install(sc, sc.init)
+				b := config.BasicAuth{Realm: sc.realm, File: sc.file}
+				if refresh {
+					b.Refresh = 10 * time.Millisecond
+				}
+				cfgs[sc.name] = config.AuthScheme{Name: sc.name, Type: "basic", Basic: b}
+				cfgItems = append(cfgItems, vh.Pair(vh.HxS(sc.name),
+					fmt.Sprintf("{| bc_realm := %s; bc_file := %s; bc_mtime := 0%%N |}", vh.HxS(sc.realm), coqHFile(sc.init))))
+			}
+			hs, err := auth.LoadAuthSchemes(cfgs)
+			if err != nil {
+				panic(err)
+			}
+			// the table: one route per scheme, an unknown scheme, no auth option
+			var routes []setRoute
+			var text strings.Builder
+			for i, sc := range scs {
+				rt := setRoute{path: "/" + sc.name + "/", auth: sc.name}
+				if (h+i)%4 == 3 {
+					rt.redirect = redirectCodes[r9.Intn(len(redirectCodes))]
+					fmt.Fprintf(&text, "route add svc%d %s https://redir.example/fixed opts \"auth=%s redirect=%d\"\n", i, rt.path, sc.name, rt.redirect)
+				} else {
+					fmt.Fprintf(&text, "route add svc%d %s http://127.0.0.1:%d/ opts \"auth=%s\"\n", i, rt.path, 9100+i, sc.name)
+				}
+				routes = append(routes, rt)
+			}
+			text.WriteString("route add svcu /nosuch/ http://127.0.0.1:9110/ opts \"auth=nosuch\"\n")
+			text.WriteString("route add svco /open/ http://127.0.0.1:9111/\n")
+			unknownRoute, openRoute := setRoute{path: "/nosuch/", auth: "nosuch"}, setRoute{path: "/open/"}
+			tbl, err := route.NewTable(bytes.NewBufferString(text.String()))
+			if err != nil {
+				panic(err)
+			}
+			hits := 0
+			p := &proxy.HTTPProxy{
+				Transport: rtFunc(func(req *http.Request) (*http.Response, error) {
+					hits++
+					return &http.Response{StatusCode: 200, Proto: "HTTP/1.1", ProtoMajor: 1, ProtoMinor: 1, Header: http.Header{},
+						Body: io.NopCloser(strings.NewReader("ok")), Request: req}, nil
+				}),
+				Lookup:      tableLookup(tbl),
+				AuthSchemes: hs,
+			}
+			type obs struct {
+				status, hits int
+				loc          bool
+				chal         string // "" = no WWW-Authenticate header
+				hasChal      bool
+				auth         string // t.AuthScheme of the target the real Lookup returned ("?" = none)
+			}
+			doReq := func(rt setRoute, header string) obs {
+				before := hits
+				req := httptest.NewRequest("GET", "http://svc.example"+rt.path+"x", nil)
+				req.RemoteAddr = "192.0.2.7:4711"
+				if header != "" {
+					req.Header.Set("Authorization", header)
+				}
+				o := obs{auth: "?"}
+				if t := p.Lookup(req); t != nil {
+					o.auth = t.AuthScheme
+				}
+				rec := httptest.NewRecorder()
+				p.ServeHTTP(rec, req)
+				o.status, o.hits, o.loc = rec.Code, hits-before, rec.Header().Get("Location") != ""
+				if vs := rec.Header().Values("Www-Authenticate"); len(vs) > 0 {
+					o.hasChal = true
+					v := strings.Join(vs, "\x00")
+					if strings.HasPrefix(v, "Basic realm=\"") && strings.HasSuffix(v, "\"") && len(v) >= len("Basic realm=\"\"") {
+						o.chal = v[len("Basic realm=\"") : len(v)-1]
+					} else {
+						o.chal = "?unexpected header: " + v
+					}
+				}
+				return o
+			}
+			type reqStep struct {
+				histLen     int
+				rt          setRoute
+				phase, note string
+				header      string
+				o           obs
+			}
+			var hist, histNotes []string
+			var steps []reqStep
+			broken := false
+			send := func(rt setRoute, phase, note, header string) {
+				if broken || len(steps) >= 44 {
+					return
+				}
+				var o obs
+				if pn, pv := vh.Recover(func() { o = doReq(rt, header) }); pn {
+					run.Violation(run.NextID(), fmt.Sprintf("ServeHTTP panicked: %v", pv), note)
+					broken = true
+					return
+				}
+				if o.auth != rt.auth {
+					run.Violation(run.NextID(), "scheme-set: the real Table.Lookup returned a target with another auth option than the route's", map[string]string{"route": rt.path, "want": rt.auth, "got": o.auth})
+					broken = true
+					return
+				}
+				steps = append(steps, reqStep{histLen: len(hist), rt: rt, phase: phase, note: note, header: header, o: o})
+				creds, shown := coqCreds(header)
+				hist = append(hist, vh.App("SsReq", vh.HxS(rt.auth), creds))
+				histNotes = append(histNotes, fmt.Sprintf("%s %s -> %d", rt.path, shown, o.status))
+			}
+			pair := func(rt setRoute, phase, note string, u hLine) {
+				send(rt, phase, fmt.Sprintf("%s %q/%q", note, u.user, u.pw), basicHeader(u.user, u.pw))
+			}
+			othersOf := func(i int) []setRoute {
+				var l []setRoute
+				for j, rt := range routes {
+					if j != i {
+						l = append(l, rt)
+					}
+				}
+				r9.Shuffle(len(l), func(a, b int) { l[a], l[b] = l[b], l[a] })
+				switch r9.Intn(4) {
+				case 0:
+					l = append(l, unknownRoute)
+				case 1:
+					l = append(l, openRoute)
+				}
+				return l
+			}
+			// one round: every user of every scheme (shuffled): home login, the same pair elsewhere, ...
+			round := func(phase string) {
+				type who struct {
+					i int
+					u hLine
+				}
+				var all []who
+				for i, sc := range scs {
+					for _, u := range sc.cur {
+						all = append(all, who{i, u})
+					}
+				}
+				r9.Shuffle(len(all), func(a, b int) { all[a], all[b] = all[b], all[a] })
+				for k, w := range all {
+					if k == 0 && r9.Intn(2) == 0 { // nobody has logged in with this pair yet
+						pair(routes[(w.i+1)%nS], phase, "cold: pair of "+scs[w.i].name+" on another scheme's route", w.u)
+					}
+					pair(routes[w.i], phase, "home login", w.u)
+					for _, rt := range othersOf(w.i) {
+						pair(rt, phase, "pair accepted by "+scs[w.i].name+" on another route", w.u)
+					}
+					switch r9.Intn(4) {
+					case 0:
+						pair(routes[w.i], phase, "home login again", w.u)
+					case 1:
+						bad := hLine{user: w.u.user, pw: w.u.pw + "x"}
+						pair(routes[w.i], phase, "wrong password at home", bad)
+						pair(routes[(w.i+1)%nS], phase, "wrong password on another scheme's route", bad)
+					case 2:
+						send(routes[w.i], phase, "no credentials", "")
+						send(routes[(w.i+1)%nS], phase, "no credentials", "")
+					}
+				}
+				for _, rt := range append(append([]setRoute(nil), routes...), unknownRoute, openRoute) {
+					if r9.Intn(3) == 0 {
+						send(rt, phase, "no credentials", []string{"", "", "Bearer abc", "Basic !!!"}[r9.Intn(4)])
+					}
+				}
+			}
+			waitCanary := func(i int, c hLine) bool {
+				deadline := time.Now().Add(5 * time.Second)
+				for {
+					o := doReq(routes[i], basicHeader(c.user, c.pw))
+					if o.status == 200 || (routes[i].redirect != 0 && o.status == routes[i].redirect) {
+						return true
+					}
+					if time.Now().After(deadline) {
+						return false
+					}
+					time.Sleep(2 * time.Millisecond)
+				}
+			}
+			round("initial")
+			if refresh && !broken {
+				// the operator replaces the file of ONE scheme
+				i := r9.Intn(nS)
+				sc := scs[i]
+				var next []hLine
+				for k, u := range sc.cur {
+					c := r9.Intn(3)
+					if k == 0 {
+						c = r9.Intn(2)
+					}
+					switch c {
+					case 0: // removed
+					case 1:
+						next = append(next, mkUser(u.user, u.pw+pw9(1+r9.Intn(2))))
+					default:
+						next = append(next, u)
+					}
+				}
+				// a user of another scheme is added with that scheme's password
+				j := (i + 1 + r9.Intn(nS-1)) % nS
+				for _, u := range scs[j].cur {
+					dup := false
+					for _, x := range next {
+						dup = dup || x.user == u.user
+					}
+					for _, x := range sc.cur {
+						dup = dup || x.user == u.user
+					}
+					if !dup {
+						next = append(next, mkUser(u.user, u.pw))
+						break
+					}
+				}
+				sc.version++
+				canary := mkUser(fmt.Sprintf("canary%ds%dv%d", h, i, sc.version), pw9(6))
+				content := append(append([]hLine(nil), next...), canary)
+				r9.Shuffle(len(content), func(a, b int) { content[a], content[b] = content[b], content[a] })
+				old := sc.cur
+				install(sc, content)
+				hist = append(hist, vh.App("SsFile", vh.HxS(sc.name), vh.App("HsWrite", coqHFile(content), vh.N(2*sc.version))))
+				histNotes = append(histNotes, fmt.Sprintf("file of %s replaced (%d user lines)", sc.name, len(next)))
+				if !waitCanary(i, canary) {
+					run.Violation(run.NextID(), "scheme-set: the changed htpasswd file never came into force (its new user still rejected after 5 s)", histNotes)
+					broken = true
+				} else {
+					hist = append(hist, vh.App("SsFile", vh.HxS(sc.name), "HsInForce"))
+					histNotes = append(histNotes, fmt.Sprintf("new file of %s seen in force", sc.name))
+					sc.cur, sc.canary = next, canary
+					for _, u := range old {
+						pair(routes[i], "after-replace", "pair of the replaced file at home", u)
+						if r9.Intn(2) == 0 {
+							pair(routes[(i+1)%nS], "after-replace", "pair of the replaced file on another scheme's route", u)
+						}
+					}
+					round("after-replace")
+				}
+			}
+			if broken {
+				continue
+			}
+			cfgTerm := vh.List(cfgItems)
+			for _, st := range steps {
+				creds, shown := coqCreds(st.header)
+				class := "scheme-set/" + st.phase
+				if mode <= 2 {
+					class += "+same-realm"
+				}
+				if st.rt.redirect != 0 {
+					class += "+redirect"
+				}
+				chal := vh.None
+				if st.o.hasChal {
+					chal = vh.Some(vh.HxS(st.o.chal))
+				}
+				realms := map[string]string{}
+				for _, sc := range scs {
+					realms[sc.name] = sc.realm
+				}
+				run.Add("http/"+class, vh.App("CSchemes", vh.N(st.rt.redirect), cfgTerm, vh.List(hist[:st.histLen]), vh.HxS(st.rt.auth), creds,
+					vh.N(st.o.status), vh.N(st.o.hits), vh.Bool(st.o.loc), chal),
+					map[string]interface{}{"history": h, "realms": realms, "route": st.rt.path, "auth": st.rt.auth, "redirect": st.rt.redirect, "phase": st.phase,
+						"request": st.note, "basic_auth": shown, "before": histNotes[:st.histLen], "status": st.o.status, "upstream_hits": st.o.hits, "challenge": st.o.chal})
+			}
+		}
 	}
 
 	run.Finish(preamble, run.Scale(140, 700))
